@@ -301,6 +301,23 @@ def run(ctx):
                 if sc < 2 and k < 2:
                     res.sample({"call": desc_txt, "target_saw": {"transport": j["transport"], "service": j["service"], "path": j["segs"], "data": j["data"], "route": j["route"]}, "tag": repr(tag)[:200]})
 
+            # ---- an Unconnected Send over a route that leads nowhere: the refusal comes from the ROUTER's Connection Manager - reply
+            # service 0xD2 (not the echo of the embedded request's service), status 0x01 + extended status.  "A refused request returns
+            # a falsy Tag carrying the status text"
+            empty2 = [s_ for s_ in range(18) if (tuple(hops[:-1]) + ((1, s_),) if hops else ((1, s_),)) not in routes]
+            if empty2:
+                dead = (list(hops[:-1]) if hops else []) + [(1, rng.choice(empty2))]
+                st, tg_ = b.call("generic_message", drv.generic_message, service=0x0E, class_code=0x01, instance=1, attribute=1, connected=False, unconnected_send=True,
+                                 route_path=[p.PortSegment(pp, ll) for pp, ll in dead], name="nowhere")
+                res.ev()
+                res.seen("unroutable-unconnected-send", len(dead))
+                want_txt = p.SERVICE_STATUS.get(0x01, "")
+                if st != "ok":
+                    res.violation("unroutable-unconnected-send:raises", f"generic_message over the dead route {dead!r} raised {tg_!r:.160} instead of returning a falsy Tag", None)
+                elif tg_ or not tg_.error or (want_txt and want_txt not in str(tg_.error)):
+                    res.violation("unroutable-unconnected-send:status-text", f"generic_message over the dead route {dead!r}: the router refused with status 0x01 / 0x0311-0x0312 (reply service 0xD2); "
+                                                                            f"Tag = {tg_!r:.200}, expected a falsy Tag whose error names {want_txt!r}", None)
+                log.violations[:] = [v for v in log.violations if v[0] == "C14"]
             # ---- re-open after a refused Forward Close: the PLC had already timed the connection out (it answers 01/0107 and
             # holds nothing); after close() / open() a connected message must be delivered again - over a NEW connection
             if sc % 3 == 0:
@@ -360,6 +377,17 @@ def run(ctx):
                 res.ev()
                 if st != "ok" or nm != pname:
                     res.violation("get_plc_name", f"get_plc_name() -> {nm!r}, controller program name {pname!r}", None)
+                # the helper asks the controller each time: after another project was downloaded it reports the new name
+                pname2 = "".join(chr(rng.randrange(0x41, 0x5B)) for _ in range(rng.choice([1, 6, 20]))) + "_2"
+                ctl.program_name = pname2
+                nj_ = len(ctl.journal)
+                st, nm = b.call("get_plc_name", drv.get_plc_name)
+                res.ev()
+                res.seen("get_plc_name-again", len(pname2))
+                if st != "ok" or nm != pname2:
+                    res.violation("get_plc_name-stale", f"the controller's program name changed from {pname!r} to {pname2!r}; a second get_plc_name() -> {nm!r} "
+                                                        f"({len(ctl.journal) - nj_} request(s) reached the controller)", None)
+                pname = pname2
             j = [e for e in ctl.journal if e["segs"][:1] == [("logical", "class", 1)]]
             want_tr = "ucmm" if micro else "unconnected_send"
             if not j or j[-1]["transport"] != want_tr or j[-1]["service"] != 1:
